@@ -1285,17 +1285,38 @@ Lemma te_with_length_v0_witness :
              option_map (map p_body) (parse_responses [M_GET] (wire s)) = Some [B "with te"]).
 Proof. split; eexists; (split; [vm_compute; reflexivity|]); vm_compute; repeat split. Qed.
 
-(** [extensions::stream_body] announces what it sends, for every file and every request (after the repair
-    4cb2e2f; before, a range that reaches past the end of the file announced bytes that never came) *)
-Lemma stream_body_announces_lemma content r :
-  fst (stream_body_future true content r) = Some (N.of_nat (length (concat (snd (stream_body_future true content r))))).
+(** [extensions::stream_body] announces what it sends, for every file and every request it answers with a
+    stream (after the repair 4cb2e2f; before, a range that reaches past the end of the file announced bytes
+    that never came) *)
+Lemma stream_body_announces_lemma content r f :
+  stream_body_future true content r = Some f ->
+  fst f = Some (N.of_nat (length (concat (snd f)))).
 Proof.
-  unfold stream_body_future. cbn [fst snd concat]. rewrite app_nil_r, firstn_length, skipn_length. f_equal. lia.
+  unfold stream_body_future. cbn [andb].
+  destruct (stream_body_416 content r); [discriminate|].
+  intros H. injection H as <-.
+  cbn [fst snd concat]. rewrite app_nil_r, firstn_length, skipn_length. f_equal.
+  destruct (stream_body_range r) as [[s e]|]; lia.
+Qed.
+(** ... and it answers with a stream unless the request's range starts at or after the end of the file
+    (d675f8a: that request gets the 416 page and no future) *)
+Lemma stream_body_refuses_lemma content r :
+  stream_body_future true content r = None <->
+  exists s e, sanitize_range (header (B "range") r) = Ok (Some (s, e)) /\ N.of_nat (length content) <= s.
+Proof.
+  unfold stream_body_future, stream_body_416, stream_body_range. cbn [andb].
+  destruct (sanitize_range (header (B "range") r)) as [[[s e]|]|c|].
+  - destruct (N.of_nat (length content) <=? s) eqn:Hle.
+    + split; [intros _; exists s, e; split; [reflexivity|lia] | reflexivity].
+    + split; [discriminate|]. intros (s' & e' & Heq & Hs). injection Heq as <- <-. lia.
+  - split; [discriminate|]. intros (s' & e' & Heq & _). discriminate.
+  - split; [discriminate|]. intros (s' & e' & Heq & _). discriminate.
+  - split; [discriminate|]. intros (s' & e' & Heq & _). discriminate.
 Qed.
 Lemma stream_body_range_v0_witness :
-  exists content r, fst (stream_body_future false content r)
-                    <> Some (N.of_nat (length (concat (snd (stream_body_future false content r))))).
+  exists content r f, stream_body_future false content r = Some f /\
+                      fst f <> Some (N.of_nat (length (concat (snd f)))).
 Proof.
   exists (B "0123456789"), (d_request 0 (B "GET") (B "/s/file.txt") [(B "range", B "bytes=0-99")]).
-  vm_compute. discriminate.
+  eexists. split; [vm_compute; reflexivity|]. vm_compute. discriminate.
 Qed.
